@@ -199,7 +199,8 @@ impl<K: SimK, V: SimV> Cx<K, V> {
         if base == 0 {
             return;
         }
-        if sz > 0 && (addr < base || addr + sz > base + size) {
+        // zero-sized elements too: their address must lie within the container value (end inclusive)
+        if addr < base || addr + sz > base + size {
             violate("outside-container", format!("{what}: reference at offset {} (size {sz}) is outside the {size} bytes of the container value", addr as i64 - base as i64));
         }
         if align > 0 && addr % align != 0 {
